@@ -43,6 +43,7 @@ import typing
 from typing_extensions import TypeIs, TypeGuard, Annotated, Final, ClassVar, Unpack, Required, ReadOnly, Concatenate, LiteralString, Never, Self
 import functools
 from typing import ParamSpec, Any
+def helper10(*a, **k): return a
 T12 = TypeVar("T12")
 P12 = ParamSpec("P12")
 type X12 = int
@@ -240,6 +241,114 @@ class Gen12(gen_c10.Gen):
         self.emit(1, "z = x or y")
         self.emit(1, "reveal_type(z)")
         self.emit(1, "return x if x else y")
+        self.emit(0, "")
+
+    def fixable_mix_section(self):
+        """A diagnostic for which pyanalyze PREPARES an automatic fix (replace_node copies the innermost
+        statement, also for disabled codes) in the same innermost statement as syntax whose AST has
+        non-AST list members: None in Dict.keys ({**x}), None in kw_defaults (lambda *, k: k), strings in
+        Global/Nonlocal.names and MatchClass.kwd_attrs.  For compound statements the innermost statement
+        is the whole if/for/while/with/match/def including its body."""
+        r = self.rng
+        self.features.add("fixable_mix")
+        fn = self.fresh("fx")
+        g = self.fresh("counter")
+        self.emit(0, f"{g} = 0")
+        self.emit(0, f"def {fn}(label, extra, *items):")
+        fixables = ["'{label}'", "'{label} {extra}'", "[0 for unused_i in range(3)]", "'%s' % label", "'%s %s' % (label, extra)",
+                    "helper10(1, 2, 3, 4, 5, 6, 7, 8, 9, 10, 11)", "{unused_k: 1 for unused_k, unused_v in extra.items()}",
+                    "'{}'.format(label)"]
+        odd = ["{**extra}", "{'k': 1, **extra}", "(lambda *, key: key)", "(lambda a, *, key, other=1: key)", "dict(**extra)",
+               "[*items]", "f(*items, **extra)" if False else "helper(label, **extra)"]
+        for _ in range(r.randrange(2, 5)):
+            fx, od = r.choice(fixables), r.choice(odd)
+            form = r.randrange(9)
+            if form == 0:
+                self.emit(1, f"v{self.uid} = [{fx}, {od}]")
+            elif form == 1:
+                self.emit(1, f"print({fx}, {od})")
+            elif form == 2:
+                self.emit(1, f"if {fx} != label:")
+                self.emit(2, f"global {g}")
+                self.emit(2, f"{g} = 1")
+            elif form == 3:
+                self.emit(1, f"for it in [{fx}]:")
+                self.emit(2, "def inner(*, key, other=None): return key")
+                self.emit(2, f"inner(key={od})")
+            elif form == 4:
+                self.emit(1, f"match {fx}:")
+                self.emit(2, f"case {r.choice(['complex(real=0.0)', 'str() | int(real=1)', '{**rest}', '[1, *others]', 'object(a=1, b=2)'])}:")
+                self.emit(3, "pass")
+            elif form == 5:
+                self.emit(1, f"while {fx}:")
+                self.emit(2, "def gen(*, k): yield k")
+                self.emit(2, "break")
+            elif form == 6:
+                self.emit(1, f"with open({fx}) as fh:")
+                self.emit(2, f"x = {od}")
+            elif form == 7:
+                self.emit(1, f"def nested(a={fx}, *, kwonly, **kw):")
+                self.emit(2, "nonlocal_dummy = a")
+                self.emit(2, f"return {od}")
+            else:
+                self.emit(1, f"return [{fx}, {od}, lambda *, key: key]")
+        self.emit(1, "return label")
+        self.emit(0, "")
+
+    def hostile_literal_section(self):
+        """shapes reported to abort or crash the unchanged checker: loops outside functions, huge int
+        literals, annotations that call objects, recursive aliases through string arguments"""
+        r = self.rng
+        self.features.add("hostile")
+        k = r.randrange(5)
+        if k == 0:
+            v = self.fresh("lv")
+            self.emit(0, f"while True:")
+            self.emit(1, f"{v} = {r.choice(LITS[:8])}")
+            self.emit(1, "break")
+            self.emit(0, f"for {v}_i in range(2):")
+            self.emit(1, f"if {v}_i: break")
+            self.emit(0, "else:")
+            self.emit(1, f"{v} = None")
+            c = self.fresh("LoopCls")
+            self.emit(0, f"class {c}:")
+            self.emit(1, "while True:")
+            self.emit(2, f"attr = {r.choice(LITS[:8])}")
+            self.emit(2, "break")
+            self.emit(1, f"for idx in (): pass")
+        elif k == 1:
+            fn = self.fresh("big")
+            self.emit(0, f"def {fn}():")
+            self.emit(1, f"x: str = 10 ** {r.choice([5000, 4400, 20000])}")
+            self.emit(1, f"y = -(10 ** 6000) if x else 2 ** 20000")
+            self.emit(1, "reveal_type(y)")
+            self.emit(1, f"return f'{{10 ** 5000}}', [10 ** 4301, '9' * 5000]")
+        elif k == 2:
+            fn = self.fresh("annc")
+            calls = ["exit(3)", "quit()", "print('x')", "input", "len('abc')", "int('7')", "sys.exit(2)", "open", "breakpoint", "max(1, 2)",
+                     "__import__('os')", "(lambda: 1)()", "list(range(3))", "str.upper('a')", "dict(a=1)"]
+            # parameter annotations are evaluated when the def runs (at import): only harmless ones there;
+            # annotations of local variables are never evaluated at run time -- pyanalyze alone sees them
+            self.emit(0, f"def {fn}(p: {r.choice(['input', 'open', 'breakpoint', 'len', 'max(1, 2)', 'list(range(3))'])} = None):  # type: ignore")
+            self.emit(1, f"x: {r.choice(calls)} = 1  # type: ignore")
+            self.emit(1, f"y: {r.choice(calls)}  # type: ignore")
+            self.emit(1, "return x")
+        elif k == 3:
+            a = self.fresh("Tree")
+            form = r.choice([f'Union[int, list["{a}"]]', f'dict[str, "{a}"]', f'Optional[tuple["{a}", ...]]', f'list[Union[int, "{a}"]]',
+                             f'Callable[["{a}"], "{a}"]'])
+            self.emit(0, f"{a} = {form}")
+            self.emit(0, f"def {self.fresh('use')}(t: {a}) -> {a}:")
+            self.emit(1, "reveal_type(t)")
+            self.emit(1, "return t")
+        else:
+            a = self.fresh("Node")
+            self.emit(0, f"class {a}:")
+            self.emit(1, f"children: list['{a}']")
+            self.emit(1, f"parent: Optional['{a}'] = None")
+            self.emit(1, f"def walk(self) -> 'dict[str, {a}]': return {{}}")
+            self.emit(0, f"def {self.fresh('use')}(n: {a}):")
+            self.emit(1, "reveal_type(n.children[0].parent.walk())")
         self.emit(0, "")
 
     def paramspec_section(self):
@@ -443,7 +552,8 @@ class Gen12(gen_c10.Gen):
             self.sysinfo_section, self.global_section, self.bounds_section, self.bounds_section,
             self.lambda_fstring_section, self.lambda_fstring_section, self.match_section,
             self.format_spec_section, self.format_spec_section, self.unpack_kwargs_section, self.typevar_truthiness_section,
-            self.typevar_truthiness_section,
+            self.typevar_truthiness_section, self.fixable_mix_section, self.fixable_mix_section, self.fixable_mix_section,
+            self.hostile_literal_section, self.hostile_literal_section,
         ]
         for _ in range(r.randrange(3, 7)):
             r.choice(pieces)()
